@@ -24,6 +24,7 @@ type SpecEnv struct {
 	calleePkg   *types.Package
 	calleeFn    *ssa.Function
 	depth       int
+	inQuant     bool
 }
 
 func (g *Gen) specEnv(st, old *State) *SpecEnv {
@@ -149,6 +150,7 @@ func (e *SpecEnv) eval(x Expr) Val {
 		return e.evalCall(n)
 	case EQuant:
 		c := e.child()
+		c.inQuant = true
 		var binders []string
 		var guards []string
 		for _, qv := range n.Vars {
@@ -528,8 +530,16 @@ func (e *SpecEnv) evalSel(n ESel) Val {
 	for i, fi := range path {
 		cst := curT.Underlying().(*types.Struct)
 		if viaPtr {
+			name, _, _ := g.fieldMapName(curT, fi)
+			hcur, have := e.st.heap[name]
+			entry := (!have && e.st.gen == 0) || hcur == "H0_"+name
 			cur = g.loadPtr(Val{T: cur.T, S: sPtr}, curT, []step{{k: stField, field: fi}}, e.st)
 			viaPtr = false
+			if entry && !e.inQuant && i == len(path)-1 && e.calleeFn == nil && e.calleePkg == nil && cur.S.K != KUnit && len(g.inputReads) < 200 && !strings.Contains(n.String(), "(") {
+				t := g.define("sr", cur.S, cur.T)
+				g.inputReads = append(g.inputReads, inputRead{Path: n.String(), Term: t, Type: cst.Field(fi).Type()})
+				g.modelVars = append(g.modelVars, ModelVar{Name: "@" + n.String(), Term: t, Sort: cur.S.SMT()})
+			}
 		} else {
 			cur.G = curT
 			cur = g.project(cur, []step{{k: stField, field: fi}})
